@@ -213,6 +213,10 @@ def _zoo() -> typing.List[typing.Tuple[str, typing.Any, typing.Callable[[], typi
     add("type", "svc ns.S u8/u8", lambda: service("ns.S", ["u8"], ["u8"]))
     add("type", "svc ns.S u8/u8", lambda: service("ns.S", ["u8"], ["u8"]))
     add("type", "svc ns.Q u8/u8", lambda: service("ns.Q", ["u8"], ["u8"]))
+    # messages named like a service (same text rendering, different kind)
+    add("type", "ns.S/1.0/struct/u8", lambda: comp("struct", ["u8"], "ns.S", (1, 0)))
+    add("type", "ns.S/1.0/struct/empty", lambda: comp("struct", [], "ns.S", (1, 0)))
+    add("type", "ns.S/1.0/delim64/u8", lambda: pydsdl.DelimitedType(comp("struct", ["u8"], "ns.S", (1, 0)), 64))
     # attributes
     add("field", "u8 a", lambda: pydsdl.Field(P("u8"), "a"))
     add("field", "u8 a", lambda: pydsdl.Field(P("u8"), "a", "with a doc comment"))
